@@ -263,6 +263,8 @@ class Interp(object):
         for v, st in outs:
             ret = v if ret is None else join_av(ret, v)
             exit_state = st if exit_state is None else join_states(exit_state, st)
+        from . import idioms
+        ret = idioms.post_call(self, fi, bound, ret)
         # propagate heap and facts back to the caller
         newheap = dict(exit_state.heap)
         state.heap.clear()
@@ -374,7 +376,7 @@ class Interp(object):
                 self.mutate(fr, cur, st, "augassign", lambda a, keep=keep: keep, strong=True)
                 fr.state.env[t.id] = weaken_av(keep, fr.state.pc)
             else:
-                fr.state.env[t.id] = weaken_av(new, fr.state.pc)
+                self.assign(t, new, fr, st)
         elif isinstance(t, ast.Attribute):
             if inplace:
                 keep = new.replace(origin=cur.origin, kind=cur.kind if cur.kind != K_TOP else new.kind,
@@ -619,6 +621,14 @@ class Interp(object):
         if isinstance(target, ast.Name):
             if v.kind == K_SCALAR and v.sym is None and v.shape == () and v.dtype in ("int", "top", "real"):
                 v = v.replace(sym=LinExpr(fresh_atom("$v")))
+            acc = self._is_accumulation(target.id, st, fr)
+            if acc:
+                v = v.replace(note="acc:" + target.id)
+            elif not quiet and ("appended",) in state.facts and target.id in state.env and \
+                    isinstance(st, (ast.Assign, ast.AugAssign, ast.AnnAssign)):
+                state.facts = state.facts | frozenset([("reset", target.id)])
+                if isinstance(v.note, str) and v.note.startswith("acc:"):
+                    v = v.replace(note=None)
             state.env[target.id] = weaken_av(v, state.pc)
         elif isinstance(target, (ast.Tuple, ast.List)):
             n = len(target.elts)
@@ -636,6 +646,38 @@ class Interp(object):
             self.store_subscript(fr, target, base, idx, v, st, how="subscript-store")
         else:
             self.unmodelled(fr, st, "assignment target " + type(target).__name__)
+
+    def _is_accumulation(self, name, st, fr):
+        """x = x + e  /  x += e  with e >= 0 (e evaluated in the current state)."""
+        e = None
+        if isinstance(st, ast.AugAssign) and isinstance(st.op, ast.Add) and isinstance(st.target, ast.Name) and \
+                st.target.id == name:
+            e = st.value
+        elif isinstance(st, ast.Assign) and len(st.targets) == 1 and isinstance(st.value, ast.BinOp) and \
+                isinstance(st.value.op, ast.Add):
+            l, r = st.value.left, st.value.right
+            if isinstance(l, ast.Name) and l.id == name:
+                e = r
+            elif isinstance(r, ast.Name) and r.id == name:
+                e = l
+        if e is None or name not in fr.state.env:
+            return False
+        ev = self.quiet_ev(e, fr)
+        return ev is not None and is_nonneg(ev.sign) and ev.kind in (K_SCALAR, K_BOOL)
+
+    def quiet_ev(self, e, fr):
+        """Evaluate an expression without recording events (used for side conditions)."""
+        saved, self.events = self.events, []
+        ls, self.listeners = self.listeners, []
+        stats = dict(self.stats)
+        try:
+            return self.ev(e, fr)
+        except Exception:
+            return None
+        finally:
+            self.events, self.listeners = saved, ls
+            for k in ("stmts", "calls", "libcalls", "joins", "loops"):
+                self.stats[k] = stats[k]
 
     def unpack_item(self, v, i, n, fr, st):
         if v.items is not None:
@@ -731,7 +773,8 @@ class Interp(object):
                 keep_f0 = lo.has_const() and isinstance(lo.const, int) and lo.const >= 1
         if arr.kind == K_LIST:
             return arr.replace(elem=join_av(arr.elem, v) if arr.elem is not None else v, items=None,
-                               tags=arr.tags | v.tags, indef=arr.indef or v.indef)
+                               tags=arr.tags | v.tags, indef=arr.indef or v.indef, mono=frozenset(), note=None,
+                               shape=None, alg=alg)
         return arr.replace(alg=alg, sign=sign_join(arr.sign, v.sign), mono=frozenset(), f0=keep_f0, const=_NOCONST,
                            tags=arr.tags | v.tags | (idx.tags if idx is not None else frozenset()),
                            indef=arr.indef or v.indef, kind=kind)
